@@ -183,6 +183,7 @@ func runCheck(e *Engine, id, tier string, dir string) (*checkResult, error) {
 		return nil, err
 	}
 	res := &checkResult{prop: ps}
+	e.curProp = id
 	for _, g := range ps.Generate {
 		f := strings.Fields(g)
 		if len(f) == 3 && f[0] == "c13" {
